@@ -1,0 +1,29 @@
+//go:build verif
+
+// Re-exports of pkg/internal/{packetlimiter,addrquota} for the external verification harness
+// (property C34). Type aliases and thin forwarding functions only.
+package verifexport
+
+import (
+	"time"
+
+	"go.minekube.com/gate/pkg/internal/addrquota"
+	"go.minekube.com/gate/pkg/internal/packetlimiter"
+)
+
+type (
+	C34Counter = packetlimiter.C34Counter
+	C34Limiter = packetlimiter.Limiter
+	C34Quota   = addrquota.Quota
+)
+
+const C34InitialCounterSize = packetlimiter.C34InitialCounterSize
+
+func C34NewCounter(interval time.Duration) C34Counter { return packetlimiter.C34NewCounter(interval) }
+func C34NewLimiter(packetsPerSecond, bytesPerSecond int, window time.Duration) *C34Limiter {
+	return packetlimiter.New(packetsPerSecond, bytesPerSecond, window)
+}
+func C34NewQuota(eventsPerSecond float32, burst, maxEntries int) *C34Quota {
+	return addrquota.NewQuota(eventsPerSecond, burst, maxEntries)
+}
+func C34IPKey(ip string) string { return addrquota.C34IPKey(ip) }
